@@ -109,6 +109,11 @@ def main(pid, argv):
                 csecs = []
                 for k in cuts[i:i + 7]:
                     mode = rng.choice(["half", "half", "abort"])
+                    fk = data[:k].split(b"\x00")[:-1]
+                    if mode == "half" and any(strict_json(x) is Ellipsis for x in fk) and rng.random() < 0.5:
+                        # the stream contains a frame that does not decode: the service hangs up by itself; this client then keeps its own
+                        # end open (no close, no half-close) until the service has been shut down - its resources must be released anyway
+                        mode = "keep"
                     conns.append((mode, data[:k]))
                     csecs.append("conn %s %s" % (mode, ",".join(c.hex() for c in S.segment(rng, data[:k])) or "-"))
                 csecs.insert(rng.randrange(len(csecs) + 1), "PROBE")
@@ -187,7 +192,7 @@ def main(pid, argv):
                 if len(log) > n_ok:
                     bad = "connection %d: %d calls dispatched but only %d leading frames are complete valid JSON" % (ci, len(log), n_ok)
                     break
-                if mode == "half":
+                if mode in ("half", "keep"):
                     # statement, read directly: every complete well-formed call is dispatched, unless a handler ended the connection before
                     strip = lambda e: " ".join(e.split(" ")[:3])
                     want = handler_calls(meta, frames[:n_ok])
